@@ -30,6 +30,7 @@ var (
 	fMinimize = flag.Int("minimize", 1500, "re-execution budget for minimisation")
 	fSteps    = flag.Int("maxsteps", 200000, "step budget per run")
 	fVerbose  = flag.Bool("v2", false, "print per-run lines")
+	fTier     = flag.String("tier", "quick", "quick|thorough: thorough doubles the size bounds of half of the runs")
 	fHang     = flag.Int("hang", 30, "wall-clock seconds after which a single run counts as hung (a loop without any scheduling point)")
 )
 
@@ -41,6 +42,7 @@ type Knobs struct {
 	TimerProb float64 `json:"timer_prob"`
 	PCTDepth  int     `json:"pct_depth"`
 	PCTLen    int     `json:"pct_len"`
+	Big       bool    `json:"big"`
 }
 
 func knobsFor(seed uint64) Knobs {
@@ -58,6 +60,7 @@ func knobsFor(seed uint64) Knobs {
 		k.PCTLen = []int{50, 200, 1000, 4000}[r.Intn(4)]
 	}
 	k.TimerProb = []float64{0.02, 0.05, 0.1, 0.25, 0.5}[r.Intn(5)]
+	k.Big = *fTier == "thorough" && r.Intn(2) == 0
 	return k
 }
 
@@ -97,7 +100,7 @@ type outcome struct {
 func execute(t *testing.T, h Harness, k Knobs, prog, sched *simrt.Stream, keep int) outcome {
 	var res *simrt.Result
 	cfg := simrt.Config{Strategy: k.Strategy, StayProb: k.StayProb, TimerProb: k.TimerProb, PCTDepth: k.PCTDepth, PCTLen: k.PCTLen,
-		MaxSteps: *fSteps, KeepEvents: keep}
+		MaxSteps: *fSteps, KeepEvents: keep, Big: k.Big}
 	// A goroutine of its own: synctest.Test ends the calling goroutine (t.FailNow) when the testing
 	// package notices a race-detector report during the bubble, and panics when tasks are left
 	// blocked at the end of the bubble.
